@@ -28,6 +28,8 @@ pub struct Profile {
     pub adversarial_16: u64,
     /// probability (x/16) that attached funds are played with (less/more/absent/extra)
     pub funds_games_16: u64,
+    /// probability (x/16) that a direct swap also carries a coin of the pair's other native denom
+    pub extra_ask_16: u64,
     pub max_pairs: usize,
     /// router worlds want a connected asset graph
     pub connected: bool,
@@ -37,13 +39,13 @@ pub struct Profile {
     pub special: Option<fn(&World, &mut Src, &Profile, &mut GenState, usize) -> Option<Step>>,
 }
 
-pub const MIXED: Profile = Profile { name: "mixed", w: [10, 6, 10, 8, 3, 1, 4, 1, 1], adversarial_16: 2, funds_games_16: 1, max_pairs: 3, connected: false, hostile: false, special: None };
-pub const SWAPPY: Profile = Profile { name: "swappy", w: [6, 2, 14, 12, 2, 0, 4, 0, 0], adversarial_16: 1, funds_games_16: 0, max_pairs: 3, connected: false, hostile: false, special: None };
-pub const SETTLE: Profile = Profile { name: "settlement", w: [6, 2, 12, 14, 2, 1, 2, 0, 0], adversarial_16: 9, funds_games_16: 5, max_pairs: 3, connected: false, hostile: false, special: None };
-pub const FUNDS: Profile = Profile { name: "funds", w: [12, 1, 14, 6, 1, 0, 0, 0, 0], adversarial_16: 3, funds_games_16: 11, max_pairs: 2, connected: false, hostile: false, special: None };
-pub const LIQUIDITY: Profile = Profile { name: "liquidity", w: [12, 12, 6, 5, 4, 2, 1, 1, 0], adversarial_16: 1, funds_games_16: 0, max_pairs: 2, connected: false, hostile: false, special: None };
-pub const HOSTILE: Profile = Profile { name: "hostile", w: [8, 3, 10, 8, 8, 2, 2, 0, 0], adversarial_16: 0, funds_games_16: 0, max_pairs: 2, connected: false, hostile: true, special: None };
-pub const ROUTES: Profile = Profile { name: "routes", w: [8, 2, 5, 4, 1, 0, 12, 0, 0], adversarial_16: 0, funds_games_16: 0, max_pairs: 5, connected: true, hostile: false, special: None };
+pub const MIXED: Profile = Profile { name: "mixed", w: [10, 6, 10, 8, 3, 1, 4, 1, 1], adversarial_16: 2, extra_ask_16: 1, funds_games_16: 1, max_pairs: 3, connected: false, hostile: false, special: None };
+pub const SWAPPY: Profile = Profile { name: "swappy", w: [6, 2, 14, 12, 2, 0, 4, 0, 0], adversarial_16: 1, extra_ask_16: 2, funds_games_16: 0, max_pairs: 3, connected: false, hostile: false, special: None };
+pub const SETTLE: Profile = Profile { name: "settlement", w: [6, 2, 12, 14, 2, 1, 2, 0, 0], adversarial_16: 9, extra_ask_16: 1, funds_games_16: 5, max_pairs: 3, connected: false, hostile: false, special: None };
+pub const FUNDS: Profile = Profile { name: "funds", w: [12, 1, 14, 6, 1, 0, 0, 0, 0], adversarial_16: 3, extra_ask_16: 1, funds_games_16: 11, max_pairs: 2, connected: false, hostile: false, special: None };
+pub const LIQUIDITY: Profile = Profile { name: "liquidity", w: [12, 12, 6, 5, 4, 2, 1, 1, 0], adversarial_16: 1, extra_ask_16: 1, funds_games_16: 0, max_pairs: 2, connected: false, hostile: false, special: None };
+pub const HOSTILE: Profile = Profile { name: "hostile", w: [8, 3, 10, 8, 8, 2, 2, 0, 0], adversarial_16: 0, extra_ask_16: 2, funds_games_16: 0, max_pairs: 2, connected: false, hostile: true, special: None };
+pub const ROUTES: Profile = Profile { name: "routes", w: [8, 2, 5, 4, 1, 0, 12, 0, 0], adversarial_16: 0, extra_ask_16: 1, funds_games_16: 0, max_pairs: 5, connected: true, hostile: false, special: None };
 
 const COMMISSIONS: [Option<u128>; 8] = [None, Some(0), Some(1), Some(30_000_000_000_000_000), Some(E18 / 2), Some(E18 - 1), Some(E18), Some(3_000_000_000_000_000)];
 
@@ -347,7 +349,23 @@ pub fn gen_swap_exec(w: &World, s: &mut Src, prof: &Profile) -> Step {
         }
     }
     // attached funds follow what is *delivered*; funds games may alter them further
-    let funds = if s.below(16) < prof.funds_games_16 {
+    let extra_ask = s.below(16) < prof.extra_ask_16;
+    let funds = if extra_ask {
+        // the exact offer plus a coin of the pair's OTHER native denom, of a magnitude comparable to
+        // the reserve (a surplus the pair was told nothing about)
+        let mut f: Vec<Coin> = delivered.iter().filter(|(_, a)| *a > 0).map(|(d, a)| Coin { denom: d.clone(), amount: Uint128::new(*a) }).collect();
+        if let AssetInfo::NativeToken { denom } = &pr.infos[1 - side] {
+            let (r0, r1, _) = w.pool(p);
+            let ry = if side == 0 { r1 } else { r0 };
+            let bal = w.balance(&pr.infos[1 - side], &actor);
+            let extra = amount(s, ry.saturating_mul(2).max(4).min(bal)).max(1);
+            if !f.iter().any(|c| c.denom == *denom) {
+                f.push(Coin { denom: denom.clone(), amount: Uint128::new(extra) });
+            }
+        }
+        f.sort_by(|a, b| a.denom.cmp(&b.denom));
+        f
+    } else if s.below(16) < prof.funds_games_16 {
         let named: Vec<(String, u128)> = if let AssetInfo::NativeToken { denom } = &offer.info { vec![(denom.clone(), offer.amount.u128())] } else { vec![] };
         funds_for(w, s, prof, &named, p)
     } else {
@@ -421,11 +439,13 @@ pub fn gen_donate(w: &World, s: &mut Src, prof: &Profile) -> Step {
     let bal = w.balance(&pr.infos[side], &actor);
     let top = if prof.hostile { s.range(1, 120) } else { s.range(1, 100) } as u32;
     let amt = amount(s, bal.min((1u128 << top) - 1)).max(1);
+    // in router-centred worlds a quarter of the donations go to the router (leftover balances)
+    let target = if prof.connected && s.chance(1, 4) { w.router.to_string() } else { pr.addr.to_string() };
     match &pr.infos[side] {
-        AssetInfo::NativeToken { denom } => Step { sender: actor, call: Call::Bank { to: pr.addr.to_string(), coins: vec![Coin { denom: denom.clone(), amount: Uint128::new(amt) }] }, funds: vec![] },
+        AssetInfo::NativeToken { denom } => Step { sender: actor, call: Call::Bank { to: target, coins: vec![Coin { denom: denom.clone(), amount: Uint128::new(amt) }] }, funds: vec![] },
         AssetInfo::Token { contract_addr } => Step {
             sender: actor,
-            call: Call::Cw20 { token: contract_addr.clone(), msg: Cw20ExecuteMsg::Transfer { recipient: pr.addr.to_string(), amount: Uint128::new(amt) } },
+            call: Call::Cw20 { token: contract_addr.clone(), msg: Cw20ExecuteMsg::Transfer { recipient: target, amount: Uint128::new(amt) } },
             funds: vec![],
         },
     }
@@ -759,9 +779,9 @@ pub fn special_slippage(w: &World, s: &mut Src, _prof: &Profile, gs: &mut GenSta
     None
 }
 
-pub const GUARDED: Profile = Profile { name: "guarded", w: [5, 2, 16, 14, 2, 0, 3, 0, 0], adversarial_16: 0, funds_games_16: 0, max_pairs: 3, connected: false, hostile: false, special: Some(special_guarded) };
-pub const SLIPPAGE: Profile = Profile { name: "slippage", w: [16, 3, 10, 8, 3, 0, 2, 0, 0], adversarial_16: 0, funds_games_16: 0, max_pairs: 2, connected: false, hostile: false, special: Some(special_slippage) };
-pub const QUOTES: Profile = Profile { name: "quotes", w: [6, 3, 14, 12, 3, 0, 4, 0, 0], adversarial_16: 0, funds_games_16: 0, max_pairs: 3, connected: false, hostile: false, special: None };
+pub const GUARDED: Profile = Profile { name: "guarded", w: [5, 2, 16, 14, 2, 0, 3, 0, 0], adversarial_16: 0, extra_ask_16: 0, funds_games_16: 0, max_pairs: 3, connected: false, hostile: false, special: Some(special_guarded) };
+pub const SLIPPAGE: Profile = Profile { name: "slippage", w: [16, 3, 10, 8, 3, 0, 2, 0, 0], adversarial_16: 0, extra_ask_16: 1, funds_games_16: 0, max_pairs: 2, connected: false, hostile: false, special: Some(special_slippage) };
+pub const QUOTES: Profile = Profile { name: "quotes", w: [6, 3, 14, 12, 3, 0, 4, 0, 0], adversarial_16: 0, extra_ask_16: 0, funds_games_16: 0, max_pairs: 3, connected: false, hostile: false, special: None };
 
 // ------------------------------------------------------------------------------------------------
 // router-centred generation (C11, C13)
@@ -868,4 +888,4 @@ pub fn special_routes(w: &World, s: &mut Src, prof: &Profile, gs: &mut GenState,
     Some(route_step(w, &actor, &hops, amt, minimum, to))
 }
 
-pub const ROUTER: Profile = Profile { name: "router", w: [7, 2, 5, 4, 1, 0, 14, 0, 0], adversarial_16: 0, funds_games_16: 0, max_pairs: 5, connected: true, hostile: false, special: Some(special_routes) };
+pub const ROUTER: Profile = Profile { name: "router", w: [7, 2, 5, 4, 2, 0, 14, 0, 0], adversarial_16: 0, extra_ask_16: 0, funds_games_16: 0, max_pairs: 5, connected: true, hostile: false, special: Some(special_routes) };
